@@ -87,6 +87,18 @@ def token_diff(a: str, b: str) -> str:
   right = ta[len(ta) - j:len(ta) - j + 2] if j else []
   mid_a = ta[i:len(ta) - j]
   mid_b = tb[i:len(tb) - j]
+  if not mid_a and not mid_b:
+    # identical after masking: a string/bytes literal or a masked name changed
+    ra = [m.group(0) for m in _TOK.finditer(a) if not m.group(0).isspace()]
+    rb = [m.group(0) for m in _TOK.finditer(b) if not m.group(0).isspace()]
+    for x, y in zip(ra, rb):
+      if x != y:
+        if x[:1] in "'\"bBrRuU" and (x[-1:] in "'\"") and y[-1:] in "'\"":
+          return ("string literal spelled differently (prefix/quotes/escapes/content): " +
+                  ("bytes" if x.lstrip("rRuU")[:1] in "bB" else "str") + " => " +
+                  ("bytes" if y.lstrip("rRuU")[:1] in "bB" else "str"))
+        return "a name or number changes, shape is the same"
+    return "same tokens"
 
   def sq(ts):
     out = []
@@ -96,7 +108,8 @@ def token_diff(a: str, b: str) -> str:
       out.append(t)
     return " ".join(out[:14])
 
-  return f"{sq(left)} «{sq(mid_a)}» => «{sq(mid_b)}» {sq(right)}".strip()
+  del right   # right-hand context only multiplies keys for one mechanism
+  return f"{sq(left)} «{sq(mid_a)}» => «{sq(mid_b)}»".strip()
 
 
 def first_line_diff(t: str, t1: str):
@@ -156,7 +169,7 @@ def classify_nonfixpoint(t: str, t1: str) -> str:
               "'Any') makes the 'from typing import' list / 'import typing' line change on re-read")
     return "typing import lines differ on re-read: " + token_diff(
         (removed or ["- "])[0][2:], (added or ["+ "])[0][2:])
-  tag, xa, xb = first_line_diff(t, t1)
+  _, xa, xb = first_line_diff(t, t1)
   if xa and xb:
     return "line re-printed differently: " + token_diff(xa[0], xb[0])
   if xa:
@@ -175,7 +188,8 @@ def classify_exception(stage: str, e: BaseException) -> str:
   last = [l for l in msg.strip().splitlines() if l.strip()][-1:] or [""]
   core = last[0]
   core = re.sub(r"^\w*Error: ", "", core)
-  masked = " ".join(_mask(core))[:160]
+  core = re.sub(r"\(.*\)", "(...)", core)      # drop ast dumps / argument lists
+  masked = " ".join(_mask(core))[:120]
   return f"{stage}: {type(e).__name__}: {masked}"
 
 
@@ -363,7 +377,9 @@ class Summarizer:
 
   def plain_import(self, a):
     from pytype.pytd import pytd
-    return isinstance(a.type, pytd.Module) and self.nm(a.name) == a.type.module_name
+    # `import m`, or `import m as _m` which the printer writes when `m` is shadowed locally
+    return (isinstance(a.type, pytd.Module) and
+            self.nm(a.name).lstrip("_") == a.type.module_name.lstrip("_"))
 
   def tparam(self, tp):
     d = tp.default
@@ -380,7 +396,7 @@ class Summarizer:
         "constants": sorted(self.const(c) for c in u.constants),
         "type_params": sorted(self.tparam(t) for t in u.type_params),
         "aliases": sorted(self.alias(a) for a in u.aliases if not self.plain_import(a)),
-        "plain_imports": sorted(self.nm(a.name) for a in u.aliases if self.plain_import(a)),
+        "plain_imports": sorted(a.type.module_name for a in u.aliases if self.plain_import(a)),
         "classes": sorted((self.klass(c) for c in u.classes), key=lambda d: d["name"]),
         "functions": sorted((self.func(f) for f in u.functions), key=lambda d: d["name"]),
     }
@@ -418,8 +434,18 @@ def first_struct_diff(a, b, path=""):
   return None
 
 
+def _norm_path(path):
+  """'.classes[].classes[].methods[].sigs[].params[][]' -> 'function.sigs.params'."""
+  p = path.replace("[]", "")
+  p = re.sub(r"^(\.classes)+\.methods", ".function", p)
+  p = re.sub(r"^\.functions", ".function", p)
+  p = re.sub(r"^(\.classes)+", ".class", p)
+  return p.lstrip(".")
+
+
 def struct_key(path, x, y, text):
   """Mechanism key of a structural difference (printed AST vs re-read AST)."""
+  path = _norm_path(path)
   if isinstance(x, str) and isinstance(y, str):
     if x != y and "builtins.tuple[" in text and _same_modulo_tuple(x, y):
       return ("homogeneous tuple printed as 'builtins.tuple[X]' (no ', ...') when the name "
